@@ -553,6 +553,41 @@ extend('C10',
        'reordering is caught; the tree\'s decade parser is proved never to succeed, with the repaired computation specified. '
        'One recorded finding: week-of-month ends under a year context.')
 
+extend('C06',
+       'ROUND 3 (front end) — for English the step from TEXT to groups is a theorem: front_abs_date proves that '
+       'BaseDateParser.parse_basic_regex_match (the loop over the eleven compiled date regexes REGENERATED from the working '
+       'tree as RE terms, regex.search, the whole-text test, the token-prefix retry, get_group), composed with match_to_date and '
+       'the resolution assembly, gives TIMEX = value = the date for every reference, for EVERY layout of the committed C06 '
+       'contract and EVERY calendar date 1900-2099 (no representative dates: year digits fully symbolic, day digits grouped '
+       'by the classes the regexes distinguish; 2,380 abstract texts kernel-evaluated; a monotonicity theorem for the '
+       'matcher — for all regexes and continuations — lifts each abstract outcome to every concrete text). The matcher and '
+       'translator are validated against the real regex module and the real parser object every run (~31k unit operations '
+       'quick, ~960k thorough).',
+       'The date extractor, the lower-casing and the other cultures\' front ends remain pipeline-level observations.')
+extend('C10',
+       'ROUND 3 (e) — the Chinese time-period, date-time-period, set and holiday parsers (Model/ZhTimePeriod; Props/C10Zh, 48 '
+       'theorems): the exact am/pm inference rules, a time range resolves to the stated clock times with the documented '
+       'next-day roll and a (T..,T..,PT..) TIMEX satisfying tripleOK, part-of-day rows inside one day, 明天下午三点到五点 is a '
+       'consistent same-day triple, 前N小时 / 未来N分钟 = [R - N u, R] / [R, R + N u] for every R and N, the set TIMEX forms, every '
+       'fixed and k-th-weekday holiday function for all years 1..9999 by theorem; five defects found and REPAIRED in /repo '
+       '(cross-midnight range on one date, short-left hour read from its last character, empty PT span, two holiday '
+       'year-reading bugs). ~12k unit cases quick / 245k thorough. The predicate tripleOK now rejects, between two definite '
+       'points, a duration that is neither P<n><U>, open (X) nor a calendar compound (P-4D, an empty component).')
+extend('C01',
+       'ROUND 3 (rest) — every remaining function of the date-period, time-period, date-time-period, set and holiday '
+       'extractors is modelled over abstract match facts (Props/C01DtExtract2, 55 theorems; ~5,300 replayed calls per run, '
+       'variant probes for the repairs): tokens inside the text for any regex outcome, exact guards and witness theorems where '
+       'the code does not guarantee it; three witnesses were reachable with the shipped regexes and REPAIRED in /repo '
+       '(century-suffix offset, reversed year-period token, period-prefix leading blank) plus the leading-blank duration token. '
+       'Options-gated code (time zones, DateTimeAlt, pure-number cases, check_both_before_after) is not reachable with '
+       'default options and is only named.')
+extend('C04',
+       'ROUND 3 (fr / it / ordinals) — french_cardinal_partial (every n < 10^12 under the exact guard frBigGuard: plural '
+       '"cents", the single-token "un million" / "un milliard"), italian_cardinal_partial (every n < 10^15 whose groups do not '
+       'end in accented "-tre"), ordinals of es / pt / de / nl / fr / it for every 1 <= n < 1000 (exact guards: Spanish '
+       '"decimoseptimo", Italian compound ordinals) and German for every n < 10^6; kernel-checked witnesses for every '
+       'excluded class; 15 extraction-regex / resource defects recorded by word class.')
+
 ALL_IDS = ['C%02d' % i for i in range(1, 21)]
 PENDING = 'check not built yet in this revision (work in progress; see DESIGN.md §8 build order)'
 
